@@ -319,6 +319,27 @@ func c17RegionStorage(rc *corepkg) {
 				pending[id] = marshal(r)
 			}
 			delete(deleted, id)
+			if s.Choose(8, "rs.resave") == 0 && len(durable) > 0 {
+				// a durable region is saved again with a newer epoch: the new copy sits in the unflushed batch while the
+				// older one is in leveldb (a delete that follows must remove both)
+				for did, b := range durable {
+					r2 := &metapb.Region{}
+					if err := proto.Unmarshal(b, r2); err != nil {
+						panic(err)
+					}
+					r2.RegionEpoch.Version++
+					if err := st.SaveRegion(r2); err != nil {
+						if !diskErrors {
+							rc.Anomaly("save region again: %v", err)
+							return
+						}
+						maybe[did] = true
+					} else {
+						pending[did] = marshal(r2)
+					}
+					break
+				}
+			}
 			if s.Choose(25, "rs.del") == 0 && len(durable) > 0 {
 				// delete a durable region (deletes go straight to leveldb)
 				for did := range durable {
